@@ -473,7 +473,7 @@ def sc_series(rng):
                                ('(1 + x) ^ -1', ['abs(x) < 1']), ('log(1 - x)', ['x > -1', 'x < 1']), ('exp(2 * x)', []),
                                ('atan(x / 2)', ['x > -1', 'x < 1']), ('log(1 + x ^ 2)', ['x > -1', 'x < 1'])])
         return {'conds': list(conds)}, f, [{'name': 'SeriesExpansionIdentity', 'old_expr': None, 'index_var': 'n'}], 'series-expand'
-    if r < 0.6:
+    if r < 0.58:
         f, lo, hi = rng.choice([('log(1 + x)', '0', '1/2'), ('exp(x)', '0', '1'), ('(1 + x) ^ -1', '0', '1/2'), ('atan(x)', '0', '1/2')])
         return {'conds': []}, integral_str(f, lo, hi), [{'name': 'SeriesExpansionIdentity', 'old_expr': sh(f), 'index_var': 'n'},
                                                         {'name': 'IntSumExchange'}, {'name': 'FullSimplify'}], 'series-integral'
@@ -575,7 +575,30 @@ def sc_lemma(rng):
     return {'conds': list(conds)}, e, [{'name': 'FullSimplify'}], 'tables-etc'
 
 
-SCENARIOS = [sc_linearity, sc_fullsimplify, sc_identity_eval, sc_substitution, sc_substitution_targeted, sc_subst_inverse, sc_parts,
+MISC = [('INT x:[0,1]. D x. x ^ 2 * exp(x)', [], ['CommonIntegral', 'FullSimplify']), ('INT x:[1,2]. D x. log(x) * x', [], ['CommonIntegral']),
+        ('INT x:[0,pi]. D x. sin(x) ^ 2 + x', [], ['CommonIntegral', 'FullSimplify']),
+        ('SUM(n, 0, oo, (-1) ^ (2 * n) / 2 ^ n)', [], ['SummationSimplify', 'FullSimplify']), ('SUM(n, 0, 4, (-1) ^ (2 * n) * n)', [], ['SummationSimplify']),
+        ('SUM(n, 0, oo, (-1) ^ (2 * n) * x ^ n / factorial(n))', [], ['SummationSimplify']),
+        ('SUM(n, 0, oo, 1 / 2 ^ n) + SUM(k, 0, oo, 1 / 3 ^ k)', [], ['MergeSummation']), ('SUM(n, 0, 5, n ^ 2) - SUM(k, 0, 5, k)', [], ['MergeSummation']),
+        ('SUM(n, 0, oo, x ^ n / factorial(n)) + SUM(k, 0, oo, (-x) ^ k / factorial(k))', [], ['MergeSummation']),
+        ('sin(pi / 6)', [], ['FunctionTable']), ('atan(1)', [], ['FunctionTable']), ('acos(1/2)', [], ['FunctionTable']), ('cot(pi / 3)', [], ['FunctionTable']),
+        ('asec(2)', [], ['FunctionTable']), ('acsc(-2)', [], ['FunctionTable']), ('asin(-(sqrt(3) / 2))', [], ['FunctionTable']), ('csc(pi / 4)', [], ['FunctionTable']),
+        ('abs(x)', ['x >= 0'], ['SimplifyIdentity']), ('abs(x)', ['x <= 0'], ['SimplifyIdentity']), ('abs(x - 1)', ['x > 1'], ['SimplifyIdentity']),
+        ('abs(x)', ['x > -1'], ['SimplifyIdentity']), ('cos(pi - x)', [], ['SimplifyIdentity']), ('sin(2 * atan(z))', ['z > 0', 'z < 1'], ['SimplifyIdentity']),
+        ('LIM {x -> 0}. (x + 1) / (x + 2)', [], ['LHopital', 'FullSimplify']), ('LIM {x -> 0}. sin(x) / x', [], ['LHopital', 'FullSimplify']),
+        ('LIM {x -> oo}. (2 * x + 1) / (x + 3)', [], ['LHopital', 'FullSimplify']), ('LIM {x -> 1}. (x ^ 2 + 1) / (x + 2)', [], ['LHopital', 'FullSimplify']),
+        ('LIM {x -> 0}. (exp(x) - 1) / sin(x)', [], ['LHopital', 'FullSimplify']), ('2 * (LIM {x -> oo}. x / (x + 1))', [], ['LHopital']),
+        ('INT x:[0,1]. SUM(n, 0, oo, x ^ n / factorial(n))', [], ['IntSumExchange', 'FullSimplify']),
+        ('INT x:[0,1/2]. SUM(n, 0, oo, (-1) ^ n * x ^ n)', [], ['IntSumExchange']),
+        ('INT x:[0,1]. D x. x ^ 2', [], ['DerivIntExchange']), ('INT u. D a. sin(a * u)', [], ['DerivIntExchange'])]
+
+
+def sc_misc(rng):
+    e, conds, names = rng.choice(MISC)
+    return {'conds': list(conds)}, e, [{'name': n} for n in names], 'misc'
+
+
+SCENARIOS = [sc_misc, sc_linearity, sc_fullsimplify, sc_identity_eval, sc_substitution, sc_substitution_targeted, sc_subst_inverse, sc_parts,
              sc_parts_indef, sc_split, sc_expand, sc_elim_inf, sc_indefinite, sc_equation, sc_algebra, sc_power, sc_identity, sc_limit,
              sc_series, sc_deriv, sc_eq_rules, sc_defs, sc_lemma, sc_substitution, sc_substitution_targeted, sc_algebra, sc_equation]
 
@@ -718,6 +741,36 @@ def aux_one(vctx, mon, check, ctxspec, e_json, extra=None):
                               'poly.normalize(%s) under %s -> %s%s ; %s' % (O.show(e_sh)[:150], ctxspec.get('conds'), str(n1)[:150], detail,
                                                                            json.dumps(res['draws'][:2], default=str)[:300]),
                               check, ctxspec, e_json, more={'output_str': str(n1), 'oracle': res})
+        if n1_sh != e_sh:
+            # informational only (not part of the property): does normalisation give a value at a special point
+            # (0, +-1) at which the input divides by zero?  e.g. x / x -> 1.  Counted, never a verdict.
+            try:
+                with mp.workdps(30):
+                    ev = O.Ev({}, 20000)
+                    fvs = O.free_vars(e_sh)
+                    for trial in range(6):
+                        env = {v: mpf(rng.choice([0, 0, 1, -1])) for v in fvs}
+                        try:
+                            if not all(ev.holds(c, env) for c in conds if set(O.free_vars(c)) <= set(env)):
+                                continue
+                        except O.NotEvaluable:
+                            continue
+                        try:
+                            ev.n = 0
+                            ev.ev(e_sh, env)
+                        except O.DomainErr as ex:
+                            if 'zero' in ex.reason:
+                                try:
+                                    ev.n = 0
+                                    ev.ev(n1_sh, env)
+                                    vctx.count('aux_normalize_domain_extended_at_special_point')
+                                    break
+                                except O.NotEvaluable:
+                                    pass
+                        except O.NotEvaluable:
+                            pass
+            except Exception:
+                pass
         vctx.case(('aux', check, e_sh, tuple(ctxspec.get('conds', []))), nontrivial=n1_sh != e_sh)
     elif check == 'deriv':
         var = extra or 'x'
@@ -838,7 +891,7 @@ def deriv_culprit(e_sh, var, ctx, conds, rng, budget, per_eval):
         try:
             with quiet():
                 dt = R.deriv(var, O.from_shadow(t), ctx)
-            r2 = O.judge(('D', var, t), O.to_shadow(dt), conds, {}, {}, rng, budget=budget, max_draws=3, per_eval=per_eval)
+            r2 = O.judge(('D', var, t), O.to_shadow(dt), conds, {}, {}, rng, budget=budget, max_draws=6, per_eval=per_eval, min_draws=4)
         except Exception:
             continue
         if r2['verdict'] == 'violated':
@@ -857,7 +910,7 @@ def normalize_culprit(e_sh, conds_obj, conds, rng, budget, per_eval):
             nt_sh = O.to_shadow(nt)
             if nt_sh == t:
                 continue
-            r2 = O.judge(t, nt_sh, conds, {}, {}, rng, budget=budget, max_draws=4, per_eval=per_eval)
+            r2 = O.judge(t, nt_sh, conds, {}, {}, rng, budget=budget, max_draws=10, per_eval=per_eval, min_draws=8)
         except Exception:
             continue
         if r2['verdict'] == 'violated':
